@@ -2,7 +2,7 @@
 # tools/mut6.sh <dir-with-CXX/N/patch.diff> — run each new seeded change against its property's quick check (parallel)
 src="${1:-/tmp/mut6/out}"
 run_one() { d="$1"; prop=$(basename $(dirname "$d")); n=$(basename "$d"); [ -f "$d/patch.diff" ] || exit 0
-  [ -f "$d/.result" ] && exit 0
+  [ -s "$d/.result" ] && exit 0
   r=$(/verif/tools/mutest.sh "$d/patch.diff" "$prop" quick 2>&1)
   echo "$r" > "$d/.result"
   echo "$prop/$n $(echo "$r" | grep -o 'exit=[0-9]*' | tail -1) $(echo "$r" | grep -o 'key=[^ ]*' | head -1) $(echo "$r" | grep -c PATCH-DOES-NOT)"; }
